@@ -556,6 +556,14 @@ class Machine:
                 vals.append(self.operand(st, o))
             name = re.sub(r"::<.*$", "", m.group(1)).rsplit("::", 1)[-1]
             return Struct(name, vals, names)
+        m = re.match(r"^\{closure@[^}]*\} \{ (.*) \}$", r)
+        if m:
+            names, vals = [], []
+            for f in split_top(m.group(1)):
+                n, o = f.split(": ", 1)
+                names.append(n)
+                vals.append(self.operand(st, o))
+            return Struct("closure", vals, names)
         if r.startswith("(") and r.endswith(")"):
             return Struct("tuple", [self.operand(st, o) for o in split_top(r[1:-1])])
         m = re.match(r"^(?:std::|core::)?(?:result::|option::)?(Result|Option)::<.*>::(Ok|Err|Some|None)(?:\((.*)\))?$", r)
